@@ -19,7 +19,9 @@
       100+3c+r for candidate c, r = 0 not eligible | 1 eligible (or vertex) but not better | 2 adopted
       candidates: 1 segment 01, 2 segment 02, 3 face 012, 4 segment 03, 5 face 013, 6 face 023,
       7 tetrahedron, 8 vertex 1, 9 vertex 2, 10 vertex 3, 11 segment 12, 12 segment 13,
-      13 segment 23, 14 face 123.  *)
+      13 segment 23, 14 face 123.
+      170 (instrumentation only) the two squared distances compared next are so close that the
+      outcome depends on how BLAS rounds [bary.dot(points)] and [np.dot(v, v)].  *)
 From Coq Require Import List NArith QArith Bool.
 From D3 Require Import Base.Ops Base.Vec.
 Import ListNotations.
@@ -38,6 +40,14 @@ Section Orig.
     Variable Y : list (V3 F).
     Definition pt (i : nat) : V3 F := nth i Y vzero.
     Definition t (i j : nat) : F := dot (pt i) (pt j).
+
+    (** instrumentation only (never influences a result): [a], [b] squared distances whose
+        computed values may be off by about [2 sqrt(d) dv + dv^2], [dv = 2^-46 max |coordinate|] *)
+    Definition lmax : F := fold_right (fun p m => fmax (fmax (abs (vx p)) (fmax (abs (vy p)) (abs (vz p)))) m) zero Y.
+    Definition near (a b : F) : list N :=
+      let dv := cst (1 # 70368744177664) * lmax in
+      if abs (a - b) <=? cst (1 # 1099511627776) * fmax a b + dv * (sqrt a + sqrt b) + dv * dv
+      then [170%N] else [].
 
     (** lines 224-227 *)
     Definition from_vertex (vi : nat) : sol := Sol (pt vi) (t vi vi) [one].
@@ -77,16 +87,16 @@ Section Orig.
       let '(n, s, o, tr) := st in
       if eligible then
         let sd := cand tt in
-        if s_d2 sd <? s_d2 s then (length ord, sd, ord, tr ++ [(100 + 3 * c + 2)%N])
-        else (n, s, o, tr ++ [(100 + 3 * c + 1)%N])
+        if s_d2 sd <? s_d2 s then (length ord, sd, ord, tr ++ near (s_d2 sd) (s_d2 s) ++ [(100 + 3 * c + 2)%N])
+        else (n, s, o, tr ++ near (s_d2 sd) (s_d2 s) ++ [(100 + 3 * c + 1)%N])
       else (n, s, o, tr ++ [(100 + 3 * c)%N]).
 
     (** "check_vertex_i = simplex.dot_product_table[i, i] < solution.distance_squared; if ..:
          n_simplex_points = 1; solution.from_vertex(simplex, i); ordered_indices[0] = i" *)
     Definition try_vertex (c : N) (vi : nat) (st : bstate) : bstate :=
       let '(n, s, o, tr) := st in
-      if t vi vi <? s_d2 s then (1%nat, from_vertex vi, [vi], tr ++ [(100 + 3 * c + 2)%N])
-      else (n, s, o, tr ++ [(100 + 3 * c + 1)%N]).
+      if t vi vi <? s_d2 s then (1%nat, from_vertex vi, [vi], tr ++ near (t vi vi) (s_d2 s) ++ [(100 + 3 * c + 2)%N])
+      else (n, s, o, tr ++ near (t vi vi) (s_d2 s) ++ [(100 + 3 * c + 1)%N]).
 
     Definition finish (st : bstate) : bres := let '(_, s, o, tr) := st in BRes s o tr.
 
@@ -211,8 +221,8 @@ Section Orig.
           let sd := from_face 3 1 2 d3_13 d1_13 d2_13 in
           let diff := s_d2 sd - s_d2 s in
           if (diff <? zero) || (Nat.eqb n 4 && (diff <=? zero)) then
-            (3%nat, sd, [3; 1; 2]%nat, tr ++ [144%N])
-          else (n, s, o, tr ++ [143%N])
+            (3%nat, sd, [3; 1; 2]%nat, tr ++ near (s_d2 sd) (s_d2 s) ++ [144%N])
+          else (n, s, o, tr ++ near (s_d2 sd) (s_d2 s) ++ [143%N])
         else (n, s, o, tr ++ [142%N]) in
       finish st.
   End WithPoints.
